@@ -1,2 +1,62 @@
-(* C09_Proofs.v — collects the proof files of C09 (so that one target builds them all). *)
-From PV Require Export C09.C09_Witness.
+(* C09_Proofs.v — collects the proof files of C09 and states the clauses that are NOT proved. *)
+From Coq Require Import ZArith List Bool Arith.
+From PV Require Import Base.U64 C09.C09_Common C09.C09_Unbuf C09.C09_Buf.
+From PV Require Export C09.C09_Witness C09.C09_BufProofs C09.C09_UnbufProofs.
+Import ListNotations.
+Local Open Scope Z_scope.
+
+(* every run of a schedule is a reachable state (ties the vm_compute witnesses and the Examples to
+   the `reach` predicates of the theorems) *)
+Lemma urun_reach fx progs now0 ls : forall s s', ureach fx progs now0 s -> urun fx s ls = Some s' -> ureach fx progs now0 s'.
+Proof.
+  induction ls as [|l r IH]; intros s s' R H; cbn in H; [inversion H; subst; exact R|].
+  destruct (ulstep fx s l) eqn:E; [|discriminate]. eapply IH; [|exact H]. eapply ureach_step; eauto.
+Qed.
+Lemma brun_reach mcap progs now0 ls : forall s s', breach mcap progs now0 s -> brun mcap s ls = Some s' -> breach mcap progs now0 s'.
+Proof.
+  induction ls as [|l r IH]; intros s s' R H; cbn in H; [inversion H; subst; exact R|].
+  destruct (blstep mcap s l) eqn:E; [|discriminate]. eapply IH; [|exact H]. eapply breach_step; eauto.
+Qed.
+
+(* non-trivial reachable states (the hypothesis `reach s` of every clause theorem is inhabited by
+   states in which senders, receivers and a closer have interacted) *)
+Example unbuf_reach_example :
+  exists s, ureach true f10_progs 1000 s /\ u_taken s = [(2, 0)%nat] /\ u_asleep s 3%nat = true.
+Proof.
+  destruct f10_fixed_behaviour as (s & H & A & _ & _ & _ & B & _).
+  exists s. split; [eapply urun_reach; [apply ureach_init|exact H]|]. auto.
+Qed.
+Example buf_reach_example :
+  exists s, breach 1 f11b_progs 1000 s /\ b_q s = [((2, 0)%nat, true)] /\ b_asleep s 1%nat = true.
+Proof.
+  destruct f11b_witness as (s & H & A & _ & _ & _ & B & _).
+  exists s. split; [eapply brun_reach; [apply breach_init|exact H]|]. auto.
+Qed.
+
+(* ---- clauses stated but NOT proved (see notes/C09.md) ------------------------------------------ *)
+(* false only because of an expired timeout: every RTimeout result was produced at a moment when the
+   call's Timeout had expired.  (The RClosed half is proved: buf_closed_reason, unbuf_closed_reason.)
+   Missing: the invariant "a thread woken by the timer has deadline <= now, and the deadline of a
+   sleep is the call's expiration", which needs the wake state and ts_wakeup that the ledger core
+   abstracts. *)
+Definition chan_timeout_reason_unbuffered : Prop :=
+  forall progs now0 s e, ureach true progs now0 s -> In e (u_log s) -> e_r e = RTimeout ->
+    expired (e_now e) (e_exp e) = true.
+Definition chan_timeout_reason_buffered : Prop :=
+  forall mcap progs now0 s e, breach mcap progs now0 s -> In e (b_log s) -> e_r e = RTimeout ->
+    expired (e_now e) (e_exp e) = true.
+
+(* release (enabledness) for the REPAIRED unbuffered channel: in a quiescent state (every thread
+   is between two operations or asleep) no sender sleeps while a receiver sleeps or the channel is
+   closed, no receiver sleeps while the slot is full, and no sender sleeps after its value was
+   taken.  Not proved (needs the wait-queue/wake-state invariant); exercised by the oracle of
+   checks/C09.py on every arrival order. *)
+Definition u_quiescent (s : ust) : Prop :=
+  u_mtx s = None /\ forall t, u_pc s t = UIdle \/ u_w s t = Asleep.
+Definition chan_release_unbuffered : Prop :=
+  forall progs now0 s, ureach true progs now0 s -> u_quiescent s ->
+    (u_closed s = true -> forall t, u_w s t <> Asleep) /\
+    (forall t e, u_pc s t = UR_w e -> u_w s t = Asleep -> u_slot s = None) /\
+    (forall t v e q, u_pc s t = US_w2 v e q -> u_w s t = Asleep -> q = u_seq s) /\
+    (forall t1 v e t2 e2, u_pc s t1 = US_w1 v e -> u_w s t1 = Asleep ->
+                          u_pc s t2 = UR_w e2 -> u_w s t2 = Asleep -> False).
